@@ -289,6 +289,11 @@ def run(ctx):
             if isinstance(n, ast.Assign) and isinstance(n.targets[0], ast.Name) and 'self.parent' in ast.unparse(n.value) \
                     and not any(isinstance(x, ast.Call) for x in ast.walk(n.value)):
                 aliases.add(n.targets[0].id)
+            # a value that is about to become the parent table (weakly referenced / stored as the parent)
+            if isinstance(n, ast.Call) and (X.dotted_attr(n.func) or '') in ('weakref.ref', 'ref') and n.args and isinstance(n.args[0], ast.Name):
+                aliases.add(n.args[0].id)
+            if isinstance(n, ast.Assign) and ast.unparse(n.targets[0]) in ('self.parent', 'self._parent') and isinstance(n.value, ast.Name):
+                aliases.add(n.value.id)
         for n in ast.walk(fn):
             tests = []
             if isinstance(n, (ast.If, ast.While, ast.IfExp)):
@@ -355,6 +360,9 @@ MUTANTS = [
            expect=('R1', 'SymbolTable.pop')),
     Mutant('cidd-setdefault-base', U, "    def setdefault(self, key, default=None):\n        if key not in self:\n            self[key] = default\n        return self[key]\n\n", "",
            expect=('R1', 'CaseInsensitiveDefaultDict.setdefault')),
+    Mutant('init-parent-truthiness', S, "    def __init__(self, parent=None, **kwargs):\n        super().__init__(**kwargs)\n        self._parent = weakref.ref(parent) if parent is not None else None",
+           "    def __init__(self, parent=None, **kwargs):\n        super().__init__(**kwargs)\n        self._parent = weakref.ref(parent) if parent else None",
+           expect=('R4', 'SymbolTable.__init__:truthiness')),
     Mutant('clone-parent-truthiness', S, "        if self.parent is not None and 'parent' not in kwargs:", "        if self.parent and 'parent' not in kwargs:", expect=('R4', 'SymbolTable.clone')),
     Mutant('st-setitem-no-clone', S, "super().__setitem__(name_parts, value.clone())", "super().__setitem__(name_parts, value)",
            expect=('R2', '__setitem__:clone-in')),
